@@ -13,7 +13,7 @@ from ..cfg import CFG, ENTRY, EXIT, RAISE
 from ..core import Ctx
 from ..flow import AV
 from ..model import AnalysisError, FuncInfo, canon, dotted, norm, walk_no_nested, body_stmts, kwarg
-from .common import check_annotator_key, conditions_at, enclosing, is_cmp, expand_locals, prog, quant_norm, resolve_local
+from .common import bound_args, check_annotator_key, check_annotator_order, conditions_at, enclosing, is_cmp, expand_locals, prog, quant_norm, resolve_local
 
 RI_FIELDS = ("_annotations", "_categories", "bound_inf", "bound_sup")
 # named friend sites outside class Continuum that may write the representation, one reason each
@@ -200,6 +200,7 @@ def rule_unit_order(ctx: Ctx):
             else:
                 ctx.undecided("R-C13-1", g, c, f"a sorted container of units is built with a key function (`{norm(keyf)}`): its order is the key's, not Unit.__lt__ "
                               f"that this rule decided (not a verdict)", key="unit-set-key")
+    check_annotator_order(ctx, "R-C13-1", judge=True)
     ctx.check(n_sets >= 1, "R-C13-1", f, None, f"{n_sets} sorted-container constructions in the package, none of a unit set with a key function: the sets are ordered by Unit.__lt__",
               bad_detail="no SortedSet construction found in the package", construct="unit sets ordered by __lt__", key="unit-set-order")
 
@@ -679,11 +680,17 @@ def rule_merge(ctx: Ctx):
                       bad_detail=f"with in_place=False merge returns {vals_false or 'nothing'} instead of the merged copy `{target_var}`", key="return")
     a = ctx.fn("Continuum.__add__", "R-C13-5")
     body = body_stmts(a.node)
-    ok = len(body) == 1 and isinstance(body[0], ast.Return) and isinstance(body[0].value, ast.Call) and \
-        norm(body[0].value.func) == f"{a.self_name}.merge" and \
-        ((kwarg(body[0].value, "in_place") is not None and getattr(kwarg(body[0].value, "in_place"), "value", None) is False)
-         or (kwarg(body[0].value, "in_place") is None and len(body[0].value.args) == 1)) and \
-        norm(body[0].value.args[0]) == a.params[1]
+    ok = False
+    if len(body) == 1 and isinstance(body[0], ast.Return) and isinstance(body[0].value, ast.Call) and norm(body[0].value.func) == f"{a.self_name}.merge":
+        mf_ = ctx.model.functions.get("Continuum.merge")
+        ba_ = bound_args(body[0].value, mf_) if mf_ is not None else None
+        if ba_ is not None and len(mf_.params) >= 3:
+            flag_ = ba_.get(mf_.params[2])
+            default_false = False
+            dflt = mf_.node.args.defaults
+            if flag_ is None and dflt:
+                default_false = isinstance(dflt[-1], ast.Constant) and dflt[-1].value is False
+            ok = norm(ba_.get(mf_.params[1])) == a.params[1] and ((flag_ is not None and isinstance(flag_, ast.Constant) and flag_.value is False) or default_false)
     ctx.check(ok, "R-C13-5", a, body[0] if body else None, "__add__ is the out-of-place merge", key="add")
 
 
